@@ -7,6 +7,7 @@ quiescence and reported.
   upstream <addr> <0|1>
   create <p> <listen> <upstream> <0|1>     (listen = the bound address, measured by the harness)
   enable <p> | disable <p> | delete <p> | setupstream <p> <addr>
+  populate <p> <listen> <upstream> <0|1>   (POST /populate with one entry: create or replace)
   tadd <p> <up|down> <tname> <type> <a1> <a2> <a3> <tox> | tdel <p> <tname> | treset <p>
   connect <p> <c> | send <c> <up|down> <hex> | close <c> <client|server>
   sendnw <c> <up|down> <hex>      (as send, but reported at this instant: no timer fires)
@@ -157,6 +158,17 @@ def step (w : State) (line : String) : State × String :=
     (match w.proxies.find? (·.name == p) with
      | some x => fin { w with proxies := w.proxies.filter (·.name != p), gone := w.gone ++ [x.stop] }
      | none => (w, "bad-op"))
+  | ["populate", p, listen, up, en] =>
+    -- AddOrReplace: an existing proxy with the same listen address and upstream is left
+    -- alone (whatever `enabled` says); otherwise it is stopped and replaced
+    (match w.proxies.find? (·.name == p) with
+     | some x =>
+       if x.listen == listen && x.upstream == up then fin w
+       else
+         let np : PProxy := { name := p, listen := listen, upstream := up, enabled := en == "1" }
+         fin { w with proxies := (w.proxies.filter (·.name != p)) ++ [np], gone := w.gone ++ [x.stop] }
+     | none =>
+       fin { w with proxies := w.proxies ++ [{ name := p, listen := listen, upstream := up, enabled := en == "1" }] })
   | ["setupstream", p, a] =>
     -- Update with a differing upstream: stop, change, start again if it was enabled
     (match updProxy w p (fun x => if x.upstream == a then x else let en := x.enabled; { (x.stop) with upstream := a, enabled := en }) with
